@@ -334,12 +334,34 @@ def synthetic_doc(keys, settings, tz):
                      "baseline_timezone": tz, "disqualification": [], "warnings": []}}
 
 
-def observe_routing(model, rd, dates):
-    """per date: sorted distinct (model_split, predicted) of the rows the prediction returned for it"""
-    out = model.predict(rd)
+ROUTE_ZONES = ["America/New_York", "Europe/Berlin", "Asia/Tokyo", "Europe/London", "Australia/Sydney", "UTC", "Asia/Kolkata",
+               "Pacific/Auckland"]          # negative, zero and POSITIVE offsets at local midnight (whole and half hours, both hemispheres)
+
+
+def local_date(ns_utc, zone):
+    """the local calendar date of an instant, from zoneinfo (CPython), not from pandas' tz handling"""
+    import zoneinfo
+    return datetime.datetime.fromtimestamp(int(ns_utc) // 10 ** 9, zoneinfo.ZoneInfo(zone)).date()
+
+
+def local_midnight_index(dates, zone):
+    """tz-aware daily index at local midnight; the instants are cross-checked against zoneinfo"""
+    import zoneinfo
+    idx = pd.DatetimeIndex([pd.Timestamp(d.year, d.month, d.day) for d in dates]).tz_localize(zone)
+    z = zoneinfo.ZoneInfo(zone)
+    want = [int(datetime.datetime(d.year, d.month, d.day, tzinfo=z).timestamp()) for d in dates]
+    got = [int(v) // 10 ** 9 for v in idx.asi8]
+    if want != got:
+        raise RuntimeError("harness: pandas and zoneinfo disagree on local midnight in %s" % zone)
+    return idx
+
+
+def observe_routing(model, data, zone):
+    """per LOCAL date (zoneinfo): (model_split, predicted, model_type) of the rows the prediction returned for it"""
+    out = model.predict(data)
     per = {}
-    for ts, ms, pred, mt in zip(out.index, out["model_split"].values, out["predicted"].values, out["model_type"].values):
-        d = datetime.date(ts.year, ts.month, ts.day)
+    for ns, ms, pred, mt in zip(out.index.asi8, out["model_split"].values, out["predicted"].values, out["model_type"].values):
+        d = local_date(ns, zone)
         ms = None if (ms is None or ms != ms) else str(ms)
         pred = None if pred != pred else float(pred)
         mt = None if (mt is None or mt != mt) else str(mt)
@@ -383,12 +405,23 @@ def route_oracle(run, keys, season, week, dates, per, nrows, case, intercepts):
 
 
 def stream_route(run, info, DailyModel, DailyReportingData, only=None):
+    from opendsm.eemeter import DailyBaselineData
     D = datetime.date
     dates = [D.fromordinal(o) for o in range(D(2023, 1, 1).toordinal(), D(2024, 12, 31).toordinal() + 1)]
     assert len(dates) == 731
-    tz = "America/New_York"
-    idx = pd.DatetimeIndex([pd.Timestamp(d.year, d.month, d.day) for d in dates]).tz_localize(tz)
-    rd = DailyReportingData(pd.DataFrame({"temperature": np.full(len(idx), 50.0)}, index=idx), is_electricity_data=True)
+    zone_data = {}
+
+    def data_for(zone, cls):
+        """the 731 local days of 2023-2024 in `zone`, through DailyReportingData ("reporting") or DailyBaselineData ("baseline")"""
+        if (zone, cls) not in zone_data:
+            idx = local_midnight_index(dates, zone)
+            if cls == "reporting":
+                obj = DailyReportingData(pd.DataFrame({"temperature": np.full(len(idx), 50.0)}, index=idx), is_electricity_data=True)
+            else:
+                obj = DailyBaselineData(pd.DataFrame({"temperature": np.full(len(idx), 50.0), "observed": np.full(len(idx), 10.0)},
+                                                     index=idx), is_electricity_data=True)
+            zone_data[(zone, cls)] = obj
+        return zone_data[(zone, cls)]
     terms, meta = [], []
     docs = [(s, s.split("__")) for s in info["all_splits"]]
     extra = [("fw-su__wd-sh_wi", ["fw-su", "wd-sh_wi"]),                 # weekend shoulder/winter days uncovered
@@ -408,14 +441,18 @@ def stream_route(run, info, DailyModel, DailyReportingData, only=None):
         elif run.quick() and mname not in ("default", "southern", "alternating"):
             rng_r = stream_rng(run, "route-" + mname)      # every split on three maps, a random third of them on the others
             use = [docs[0]] + rng_r.sample(docs[1:], 15)
-        for text, keys in use:
+        for i_doc, (text, keys) in enumerate(use):
+            # every (zone, data class) pair occurs for every map: the zone rotates with the document, the class every 8 documents
+            tz = ROUTE_ZONES[i_doc % len(ROUTE_ZONES)]
+            cls = ["reporting", "baseline"][(i_doc // len(ROUTE_ZONES)) % 2]
             if only is not None and (only.get("split") != text or only.get("maps") != mname):
                 continue
-            case = {"split": text, "maps": mname, "season": season, "week": week}
+            case = {"split": text, "maps": mname, "season": season, "week": week, "tz": tz, "data_class": cls}
             intercepts = {c: 100.0 + i for i, c in enumerate(keys)}
+            run.dist("route: time zone / data class", "%s / %s" % (tz, cls))
             try:
                 model = DailyModel.from_dict(synthetic_doc(keys, settings, tz))
-                per, nrows = observe_routing(model, rd, dates)
+                per, nrows = observe_routing(model, data_for(tz, cls), tz)
             except Exception as e:  # noqa
                 run.violation({"call": "DailyModel.predict", "broken": "raised", "raised": type(e).__name__},
                               "C13 predict raised %s: %s on split %s" % (type(e).__name__, e, text), case=case,
